@@ -596,6 +596,29 @@ func instDyn(t *rapid.T, ty spec.T) spec.T {
 // whose products overflow 64 bits, and the limits of the narrower integers.
 var farLens = []int{16, 255, 256, 1024, 65535, 65536, 1 << 31, 1 << 32, 1<<62 + 1}
 
+// distinctSimple counts the distinct members of a set spec when every member
+// is a known, unmarked string, bool or Go-integer number (no doubt about
+// their equality); ok is false otherwise.
+func distinctSimple(elems []spec.V) (n int, ok bool) {
+	seen := map[string]bool{}
+	for _, e := range elems {
+		if e.St != spec.Known || len(e.Marks) > 0 {
+			return 0, false
+		}
+		switch {
+		case e.T.K == spec.KString:
+			seen["s"+spec.NFC(e.S)] = true
+		case e.T.K == spec.KBool:
+			seen[fmt.Sprint("b", e.B)] = true
+		case e.T.K == spec.KNumber && e.N != nil && e.N.Route == "int":
+			seen["n"+e.N.Text] = true
+		default:
+			return 0, false
+		}
+	}
+	return len(seen), true
+}
+
 // FarLen draws one of the far upper length bounds.
 func FarLen(t *rapid.T) int { return rapid.SampledFrom(farLens).Draw(t, "farlen") }
 
@@ -766,13 +789,25 @@ func abstractOf(t *rapid.T, v spec.V, allowDyn bool, kinds *[]string) spec.V {
 			// the true length of a set spec is the number of distinct members,
 			// which the spec does not know without an equality model: only
 			// state bounds that hold for every possible coalescing.
+			// For members whose equality is beyond doubt (known strings, bools,
+			// numbers built from Go integers) the number of distinct members
+			// is known, and the bounds can be as tight as for a list: a set
+			// spec may list one member twice.
+			d, exact := distinctSimple(v.Elems)
 			if rapid.Bool().Draw(t, "minlen") && n > 0 {
 				lo := rapid.IntRange(0, 1).Draw(t, "lo")
+				if exact {
+					lo = rapid.IntRange(0, d).Draw(t, "loexact")
+				}
 				r.MinLen = &lo
 				add("minlen")
 			}
 			if rapid.Bool().Draw(t, "maxlen") {
 				hi := upperLen(t, n)
+				if exact {
+					hi = upperLen(t, d)
+					add("maxlen-exact-set")
+				}
 				r.MaxLen = &hi
 				add("maxlen")
 			}
